@@ -877,11 +877,11 @@ func (c *TermCtx) printTerm(sb *strings.Builder, t *Term, names map[int]string) 
 
 type Query struct {
 	Abstract map[string]bool // define-funs to emit as uninterpreted functions (sound for unsat answers only)
-	Name    string
-	Assume  []*Term
-	Goal    *Term // nil => satisfiability (cover/canary) query of the assumptions
-	Extra   []string
-	Comment string
+	Name     string
+	Assume   []*Term
+	Goal     *Term // nil => satisfiability (cover/canary) query of the assumptions
+	Extra    []string
+	Comment  string
 }
 
 // Render produces SMT-LIB text for a query. Shared closed subterms are named with define-fun.
